@@ -1,4 +1,5 @@
 PROP = dict(
+    thorough_seeds=48,
     module="M3d.Props.C19",
     corr=dict(quick=500, thorough=2500),
     gen=["ReflectAmount", "Kernels"],
